@@ -478,6 +478,11 @@ def c17(res, tier, seed, lib):
             g = rnd.randrange(256)
             texts[1] = "rgb(%d,%d,%d)" % (g, g, g); texts[-1] = "hsl(%d,0%%,%.1f%%)" % (rnd.randrange(360), g / 2.55)
         cases.append((texts, rnd.choice(keys + ["random"]), rnd.random() < 0.4, rnd.random() < 0.4, rnd.random() < 0.5))
+    # the key 'random' on long lists (the standard sort only inspects its comparison function closely
+    # on more than 20 elements), arguments and stdin
+    for ln in [21, 33, 64, 300]:
+        for use_stdin in [False, True]:
+            cases.append(([rand_color_text(rnd) for _ in range(ln)], "random", False, False, use_stdin))
     # colours off the 8-bit grid with one decimal (what pastel itself prints), many per list: near-tied keys
     for _ in range(3 if tier != "thorough" else 40):
         texts = ["hsl(%d,%.1f%%,%.1f%%)" % (rnd.randrange(360), rnd.uniform(0, 100), rnd.uniform(0, 100)) for _ in range(300)]
@@ -1019,6 +1024,16 @@ def c19(res, tier, seed, lib):
             continue  # streaming commands: still printing complete lines when stopped, no verdict on termination here
         res.check(rc in (0, 1, 2), "huge-count-exit-0-1-2", "cli:" + argv[0], " ".join(argv),
                   "rc=%s stderr=%r" % ("still running after 90 s" if rc == -999 else rc, strip_sgr(err)[:160]))
+    # ---- long lists through the commands that collect all colours before printing ----
+    for ln in [21, 64, 300]:
+        texts = [rand_color_text(rnd) for _ in range(ln)]
+        for key in ["random", "brightness", "hue"]:
+            for argv, data in [(["sort-by", key] + texts, b""), (["sort-by", key], "".join(t + "\n" for t in texts).encode())]:
+                rc, out, err = run_cli(argv, stdin=data)
+                res.case("sort-by %s with %d colours" % (key, ln))
+                generic_oracle(res, argv[:2] + ["<%d colours>" % ln], rc, out, err)
+                res.check(rc == 0 and out.count(b"\n") == ln, "long-list-sorted-without-failure", "cli:sort-by", "sort-by %s <%d colours via %s>" % (key, ln, "stdin" if data else "arguments"),
+                          "rc=%s, %d lines, stderr=%r" % (rc, out.count(b"\n"), strip_sgr(err)[:160]))
     # ---- B. oracle-only families: every subcommand with defective arguments ----
     subs = ["color", "list", "random", "distinct", "sort-by", "pick", "format", "paint", "gradient", "mix", "colorblind", "set",
             "saturate", "desaturate", "lighten", "darken", "rotate", "complement", "gray", "to-gray", "textcolor", "colorcheck",
